@@ -1536,6 +1536,9 @@ def shipped_case(ck, case, g=None):
         selected = ["sm_" + a for a in archs]
     else:
         selected = ["sycl-" + t for t in value.split(",")]
+    if case.get("theorem_selected") is not None and case["theorem_selected"] != selected:
+        # Props/C12RegexComplete.lean (nvcc_passes_comma_list / sycl_targets_selects) gives the passes of a comma-joined list in closed form
+        ctx.corr_break("c12.comma_list_theorem", case, case["theorem_selected"], selected)
     declared = set(comp["passes"])
     want = sorted({p_ for p_ in selected if p_ in declared} | {"default"})
     rep = {"impl": g, "selected_by_closed_form": selected, "expected_passes": want}
@@ -1574,12 +1577,23 @@ def stream_shipped(ck, rng, n):
                 vals = [",".join(rng.choice(tg) for _ in range(rng.randint(1, 3))) for _ in range(n // 2)]
             else:
                 continue
-            for v in vals:
-                if v.startswith("-") or (kind == "sycl-targets" and v == ""):
+            vals = [(v, None) for v in vals]
+            # the shapes of the all-values theorems (comma-joined lists, up to 12 names; empty / odd target names)
+            for _ in range(max(4, n // 8)):
+                if kind == "nvcc-arch":
+                    v, ds = R.gen_arch_list(rng)
+                    vals.append((v, ["sm_" + d for d in ds]))
+                else:
+                    fs = [rng.choice(["spir64", "spir64_x86_64", "spir64_gen", "spir64_fpga", "nvptx64-nvidia-cuda", "amdgcn", "", " ", "a b", "x$y", "spir64"])
+                          for _ in range(rng.randint(1, 8))]
+                    if fs != [""]:
+                        vals.append((",".join(fs), ["sycl-" + x for x in fs]))
+            for v, thm in vals:
+                if v.startswith("-") or v.startswith(" ") or (kind == "sycl-targets" and v == ""):
                     continue
                 f = rng.choice(r["flags"])
                 argv = [f + "=" + v, "x.cu"] if (rng.random() < 0.5 or v == "") else [f, v, "x.cu"]
-                cases.append({"stream": "shipped", "kind": kind, "value": v, "config": None,
+                cases.append({"stream": "shipped", "kind": kind, "value": v, "config": None, "theorem_selected": thm,
                               "cmds": [{"argv0": name, "argv": argv}], "hazards": []})
     got = ck.impl.case(None, [c["cmds"][0] for c in cases])["results"]
     for c, g in zip(cases, got):
@@ -1593,6 +1607,7 @@ def stream_models(ck, rng):
     from harness.props import c12_regex as R
     ctx = ck.ctx
     R.stream_findall(ctx, ck.drv, rng, ck.builtin, FLAG_PATTERN, VALUES, ctx.n(3000, 20000), ctx.n(60, 500))
+    R.stream_spec(ctx, ck.drv, rng, ck.builtin, FLAG_PATTERN, VALUES, ctx.n(2000, 12000), ctx.n(60, 400))
     R.stream_template(ctx, ck.drv, rng, ctx.n(400, 4000))
     R.stream_split(ctx, ck.drv, rng, ctx.n(400, 4000))
 
@@ -1603,7 +1618,7 @@ RULE = ("non-trivial = the command line selects at least one pass besides `defau
         "the same header name, twin commands that differ only in what they include): at least one line is attributed to a proper, "
         "non-empty subset of the platforms")
 ASSUMPTIONS = [
-    "re.findall is computed by the model (Model/Regex.lean: back-tracking matcher, proved sound; tied to CPython's re by the `regex` stream) for patterns of the supported fragment with at most one group; for any other pattern the harness supplies the findall results as a table (counted in extra.regex_use)",
+    "re.findall is computed by the model (Model/Regex.lean: back-tracking matcher, proved sound, complete and equal to the priority specification Spec/RegexPrio.lean on every parsed pattern; matcher and specification are tied to CPython's re by the `regex` / `regex_spec` parts of the `models` stream) for patterns of the supported fragment with at most one group; for any other pattern the harness supplies the findall results as a table (counted in extra.regex_use)",
     "string.Template, str.split (tied by the `template` / `split` streams), tomllib, jsonschema and CPython 3.12 argparse are modelled, not verified; characters are ASCII (Python's \\d \\w \\s and str.split() are Unicode aware)",
     "the shipped value rules are additionally judged against their documented meaning (nvcc: every sm_N / compute_N in the value of --gpu-architecture / --gpu-code / -gencode selects pass sm_N; icx: -fsycl-targets=a,b selects sycl-a, sycl-b): the closed forms proved in Props/C12Regex.lean",
     "command lines contain no `--` element and no option value starting with `-` (C11's recorded classes D22 / D23)",
